@@ -260,7 +260,7 @@ def handlerPaths : List HPath :=
 
 inductive Act
   | sig (k : Kind)        -- M takes SIGUSR1 / SIGUSR2 from `sigs` and calls queueReloadRequest
-  | swallow (k : Kind)    -- SIGUSR1/2 consumed (and ignored) by waitReloadReadyOrSignal
+  | swallow (k : Kind)    -- SIGUSR1/2 consumed by waitReloadReadyOrSignal: refused, reported busy
   | term                  -- M takes a termination signal in its main select
   | cliSend               -- a `dae reload` client passes its pre-check and writes ReloadSend
   | wake (i : Nat)        -- M takes a run-state notification and follows handlerPaths[i]
@@ -282,7 +282,7 @@ def step (s : St) (a : Act) : Option St :=
   | .sig k => if s.m.isEmpty then some { s with m := [.casQ k] } else none
   | .swallow _ =>
     match s.m with
-    | .waitReady :: _ => some s
+    | .waitReady :: _ => some { s with progress := .busyActive }
     | _ => none
   | .term => if s.m.isEmpty then some { s with exited := true } else none
   | .cliSend => if s.progress.cliAccepts then some { s with progress := .send } else none
